@@ -127,6 +127,16 @@ def judge_conn(ctx, binary, groups, label):
                 continue
             f = fields_of(io)
             verdicts.append(f.get("c"))
+            if f.get("c") == "1" and (mf.get("sc") == "0" or f.get("fin") == "0"):
+                ctx.stat("conn:accepted-not-strongly-connected")
+                report(ctx, "fail", "conn-dir:accepts", "is_connected returns true for a graph on which compute_shortest_distances_matrix "
+                       "leaves unreachable pairs (reachability is tested from sample 0 along directed edges only)", line,
+                       {"impl": io, "model": mo})
+                continue
+            if f.get("c") == "0" and mf.get("sc") == "1":
+                report(ctx, "fail", "conn:rejects-strongly-connected", "is_connected returns false for a graph on which every geodesic is "
+                       "finite (k would be raised although not needed)", line, {"impl": io, "model": mo})
+                continue
             if mf.get("c") != f.get("c"):
                 if mf.get("c") == "oob":
                     ctx.stat("conn:model-oob-impl-survives")   # reading past a vector without a fault: not comparable
@@ -139,16 +149,7 @@ def judge_conn(ctx, binary, groups, label):
                        "the Lean oracle stronglyConnected (%s)" % (f["fin"], mf.get("sc")), line, {"impl": io, "model": mo},
                        broken="oracle stronglyConnected vs compute_shortest_distances_matrix")
                 continue
-            if f.get("c") == "1" and f.get("fin") == "0":
-                ctx.stat("conn:accepted-not-strongly-connected")
-                report(ctx, "fail", "conn-dir:accepts", "is_connected returns true for a graph on which compute_shortest_distances_matrix "
-                       "leaves unreachable pairs (reachability is tested from sample 0 along directed edges only)", line,
-                       {"impl": io, "model": mo})
-            elif f.get("c") == "0" and mf.get("sc") == "1":
-                report(ctx, "fail", "conn:rejects-strongly-connected", "is_connected returns false for a strongly connected graph "
-                       "(k would be raised although not needed)", line, {"impl": io, "model": mo})
-            else:
-                ctx.stat("conn:agree")
+            ctx.stat("conn:agree")
         vs = [v for v in verdicts if v is not None]
         if len(set(vs)) > 1:
             a = grp[verdicts.index("1")]
@@ -297,6 +298,9 @@ def fn_verdict(c, io, mf):
         return ("broken", "driver:fn", "driver rejected the case: %s" % mf)
     if mf.get("exact") != "ok":
         return ("skip", "c02-inexact-lists", "")
+    if c.get("check", "1") == "1" and (f.get("fin") == "0" or (mf.get("sc") == "0" and mf.get("uni") == "1")):
+        return ("fail", "conn-dir:fn", "find_neighbors(.., check_connectivity=true) returns a %s-neighbour graph that it reports as "
+                "connected, but compute_shortest_distances_matrix on it has unreachable pairs (infinite geodesics)" % f.get("tried", "").split(",")[-1])
     if mf["mtried"] in ("oob", "fuel"):
         return ("broken", "corr:fn-model-" + mf["mtried"], "model recursion ends in %s on lists the implementation survived" % mf["mtried"])
     if mf.get("same") != "1":
